@@ -79,6 +79,13 @@ func crashGen(r *rand.Rand, mode string, thorough bool) dbCase {
 					prog = append(prog, dbOp{Kind: "del", Key: (k + j) % nkeys})
 				}
 			}
+			if ci == 0 && r.Intn(5) == 0 {
+				// accepted deletes of the empty key: WAL records and tombstones with a key that is read back as nil
+				for n := 1 + r.Intn(2); n > 0; n-- {
+					at := r.Intn(len(prog) + 1)
+					prog = append(prog[:at], append([]dbOp{{Kind: "delempty"}}, prog[at:]...)...)
+				}
+			}
 			clients = append(clients, prog)
 		}
 		if mode == "async" && r.Intn(2) == 0 {
@@ -711,7 +718,9 @@ func runCrashCaseFrom(c *Ctx, dc dbCase, tape *simrt.Tape, plan crashPlan, base 
 		tags := imageTags(m)
 		if !cached {
 			rec = recoverImage(c, m, dc.Recovery, dc.Keys, simrt.NewTape(int64(bi)), false)
-			cache[h] = rec
+			// only the latest image is kept (equal images are nearly always consecutive: events that change nothing
+			// on disk); a recovery holds its whole trace and every value, with multi-megabyte values hundreds of MB
+			cache = map[string]*recovered{h: rec}
 			out.recoveries++
 			out.imageHashes = append(out.imageHashes, h)
 			for _, t := range tags {
